@@ -21,6 +21,8 @@ type c09RLWECtx struct {
 	swk    *rlwe.EvaluationKey
 	// swkLow: a switching key generated below the maximum level (legal: EvaluationKeyParameters.LevelQ)
 	swkLow *rlwe.EvaluationKey
+	// evkLow: the Galois keys of evk generated one level below the maximum
+	evkLow *rlwe.MemEvaluationKeySet
 }
 
 func c09RLWE(ctx *core.RunCtx) *c09Scheme {
@@ -55,7 +57,8 @@ func c09RLWE(ctx *core.RunCtx) *c09Scheme {
 			evk := rlwe.NewMemEvaluationKeySet(kgen.GenRelinearizationKeyNew(sk), kgen.GenGaloisKeysNew(uniq, sk)...)
 			lowQ, lowP := p.MaxLevelQ()-1, p.MaxLevelP()
 			low := kgen.GenEvaluationKeyNew(sk, sk2, rlwe.EvaluationKeyParameters{LevelQ: &lowQ, LevelP: &lowP})
-			return &c09RLWECtx{params: p, sk: sk, evk: evk, swk: kgen.GenEvaluationKeyNew(sk, sk2), swkLow: low}
+			evkLow := rlwe.NewMemEvaluationKeySet(nil, kgen.GenGaloisKeysNew(uniq, sk, rlwe.EvaluationKeyParameters{LevelQ: &lowQ, LevelP: &lowP})...)
+			return &c09RLWECtx{params: p, sk: sk, evk: evk, swk: kgen.GenEvaluationKeyNew(sk, sk2), swkLow: low, evkLow: evkLow}
 		})
 		if x, ok := c.(*c09RLWECtx); ok {
 			cc = x
@@ -183,6 +186,9 @@ func c09RLWE(ctx *core.RunCtx) *c09Scheme {
 				rq.Add(p.Value[1], q.Value[1], r.Value[1])
 				return nil
 			}, o)
+		}},
+		{name: "Automorphism(keys of lower level)", op1: []int{vNone}, ks: c09Rotations, needDeg1: true, deg: degOne, call: func(e any, a *rlwe.Ciphertext, b any, k int, o *rlwe.Ciphertext) error {
+			return ev(e).WithKey(cc.evkLow).Automorphism(a, params.GaloisElement(k), o)
 		}},
 		{name: "Trace", op1: []int{vNone}, ks: logNs, needDeg1: true, deg: degOne, call: func(e any, a *rlwe.Ciphertext, b any, k int, o *rlwe.Ciphertext) error {
 			return ev(e).Trace(a, k, o)
